@@ -62,6 +62,8 @@ Put(o, i, p, j) ==          \* p.g[j][0] = o.g[i]   /   p.g[j]["k"] = o.g[i]
          h2 == [h1 EXCEPT !.child[c] = v]
      IN SetH(Dec(h2, child[c]))
   /\ UNCHANGED <<slot, couts, alive>>
+PutR(o, i, p, j) ==         \* p.g[j][0..0] = ({ o.g[i] })  (range assignment: same effect as Put, on arrays only)
+  /\ slot[<<p, j>>] # 0 /\ kind[slot[<<p, j>>]] = "arr" /\ Put(o, i, p, j)
 NewFp(o, i, j) ==           \* g[j] = (: cb, g[i] :)
   /\ alive[o] /\ Fresh # 0
   /\ LET v == Fresh  a == slot[<<o, i>>]
